@@ -371,14 +371,41 @@ theorem path_len (t : Time) (fabric : FabricView) (noc ic : Cert)
   have := h1.2.2.2.2 0 (by simp [hd])
   omega
 
-/-- **unknown critical extension** anywhere on the path -/
+/-- **unknown critical extension** anywhere on the path, in ANY `future-extensions` element of the
+certificate (the first, or one behind non-critical ones) and at ANY position inside that element -/
 theorem critical_ext (t : Time) (fabric : FabricView) (noc : Cert) (icac : Option Cert)
-    (c : Cert) (hc : c ∈ pathOf noc icac fabric.root) (hd : c.critFuture = true) :
+    (c : Cert) (hc : c ∈ pathOf noc icac fabric.root)
+    (el : List FutExt) (hel : el ∈ c.futureExts) (e : FutExt) (he : e ∈ el) (hd : e.critical = true) :
     Rejected t fabric noc icac := by
   apply rejected_of_not_valid
   intro h
-  have := h.1.2.2.1 c hc
+  have := h.1.2.2.1 c hc el hel e he
   rw [hd] at this; cases this
+
+/-- the code's double loop (`has_critical_future_extension` over all elements, `der_blob_has_critical_extension`
+over all sub-extensions) answers `true` exactly when some sub-extension of some element is critical -/
+theorem hasCriticalFutureExtension_iff (l : List (List FutExt)) :
+    hasCriticalFutureExtension l = true ↔ ∃ el ∈ l, ∃ e ∈ el, e.critical = true := by
+  have h := hasCritical_false_iff l
+  constructor
+  · intro ht
+    apply Classical.byContradiction
+    intro hn
+    have : hasCriticalFutureExtension l = false := h.2 (by
+      intro el hel e he
+      cases hc : e.critical with
+      | false => rfl
+      | true => exact absurd ⟨el, hel, e, he, hc⟩ hn)
+    rw [this] at ht; cases ht
+  · rintro ⟨el, hel, e, he, hc⟩
+    cases hh : hasCriticalFutureExtension l with
+    | true => rfl
+    | false => have := h.1 hh el hel e he; rw [hc] at this; cases this
+
+/-- … wherever it sits: appending / prepending non-critical elements and sub-extensions changes nothing -/
+theorem critical_behind_noncritical (pre post : List (List FutExt)) (a b : List FutExt) (e : FutExt)
+    (hd : e.critical = true) : hasCriticalFutureExtension (pre ++ (a ++ e :: b) :: post) = true :=
+  (hasCriticalFutureExtension_iff _).2 ⟨a ++ e :: b, by simp, e, by simp, hd⟩
 
 /-- **missing node id** -/
 theorem missing_node_id (t : Time) (fabric : FabricView) (noc : Cert) (icac : Option Cert)
@@ -544,7 +571,7 @@ theorem flip_signature_error_class (t : Time) (fabric : FabricView) (noc : Cert)
 /-- `PathValid` from an arbitrary starting depth -/
 def PathValidFrom (t : Time) (depth : Nat) (p : List Cert) : Prop :=
   (∀ pr ∈ p.zip (p.tail ++ p.getLast?.toList), Issues pr.2 pr.1) ∧
-  (∀ c ∈ p, Covers t c ∧ c.critFuture = false) ∧
+  (∀ c ∈ p, Covers t c ∧ NoUnknownCritical c) ∧
   ∀ pr ∈ p.zipIdx depth, PositionOk pr.1 pr.2
 
 theorem verifyFrom_iff (t : Time) (ps : List Cert) : ∀ (cur : Cert) (depth : Nat),
@@ -585,7 +612,7 @@ theorem addTrustedRoot_iff (t : Time) (root : Cert) : addTrustedRoot t root = tr
       rw [← finalise_ok_iff, hf]; simp
     simp only [Bool.false_eq_true, false_iff]
     intro h; apply this
-    refine ⟨h.1, h.2.1, h.2.2.1, ?_⟩
+    refine ⟨h.1, h.2.1, (noUnknownCritical_iff root).1 h.2.2.1, ?_⟩
     rcases h.2.2.2.1 with h1 | h1
     · exact Or.inr h1
     · exact Or.inl ⟨rfl, h1⟩
@@ -609,17 +636,17 @@ theorem addTrustedRoot_iff (t : Time) (root : Cert) : addTrustedRoot t root = tr
 def exRoot : Cert :=
   { subject := [.rootCaId 1, .fabricId 7], issuer := [.rootCaId 1, .fabricId 7], notBefore := 10,
     notAfter := 0, bc := some (true, none), keyUsage := some 0x60, eku := none, skid := some 0,
-    akid := some 0, critFuture := false, pubKey := 0, sigBy := some 0 }
+    akid := some 0, futureExts := [], pubKey := 0, sigBy := some 0 }
 
 def exIcac : Cert :=
   { subject := [.icaId 2, .fabricId 7], issuer := [.rootCaId 1, .fabricId 7], notBefore := 10,
     notAfter := 1000, bc := some (true, some 0), keyUsage := some 0x60, eku := none, skid := some 1,
-    akid := some 0, critFuture := false, pubKey := 1, sigBy := some 0 }
+    akid := some 0, futureExts := [], pubKey := 1, sigBy := some 0 }
 
 def exNoc : Cert :=
   { subject := [.nodeId 5, .fabricId 7, .cat 65537], issuer := [.icaId 2, .fabricId 7],
     notBefore := 10, notAfter := 1000, bc := some (false, none), keyUsage := some 1,
-    eku := some [1, 2], skid := some 9, akid := some 1, critFuture := false, pubKey := 9,
+    eku := some [1, 2], skid := some 9, akid := some 1, futureExts := [], pubKey := 9,
     sigBy := some 1 }
 
 /-- the same leaf issued directly by the root -/
@@ -655,7 +682,17 @@ example : caseAccept exT { exFabric with root := { exRoot with bc := some (true,
     = .error .invalidData := by rfl
 example : caseAccept exT { exFabric with root := { exRoot with bc := some (true, some 1) } } exNoc (some exIcac)
     = .ok 5 := by rfl
-example : caseAccept exT exFabric { exNoc with critFuture := true } (some exIcac) = .error .invalidData := by rfl
+example : caseAccept exT exFabric { exNoc with futureExts := [[⟨1, true⟩]] } (some exIcac) = .error .invalidData := by rfl
+-- the critical sub-extension in the SECOND `future-extensions` element, behind a non-critical one; last of three;
+-- second inside one element; on the ICAC; on the root — all refused; only non-critical ones: accepted
+example : caseAccept exT exFabric { exNoc with futureExts := [[⟨1, false⟩], [⟨2, true⟩]] } (some exIcac) = .error .invalidData := by rfl
+example : caseAccept exT exFabric { exNoc with futureExts := [[⟨1, false⟩], [⟨2, false⟩], [⟨4, true⟩]] } (some exIcac) = .error .invalidData := by rfl
+example : caseAccept exT exFabric { exNoc with futureExts := [[⟨1, false⟩, ⟨2, true⟩]] } (some exIcac) = .error .invalidData := by rfl
+example : caseAccept exT exFabric exNoc (some { exIcac with futureExts := [[⟨1, false⟩], [⟨2, true⟩]] }) = .error .invalidData := by rfl
+example : caseAccept exT { exFabric with root := { exRoot with futureExts := [[⟨1, false⟩], [⟨2, true⟩]] } } exNoc (some exIcac)
+    = .error .invalidData := by rfl
+example : caseAccept exT exFabric { exNoc with futureExts := [[⟨1, false⟩, ⟨2, false⟩], [⟨4, false⟩]] } (some exIcac) = .ok 5 := by rfl
+example : ¬ CaseValid exT exFabric { exNoc with futureExts := [[⟨1, false⟩], [⟨2, true⟩]] } (some exIcac) := by decide
 example : caseAccept exT exFabric { exNoc with subject := [.fabricId 7] } (some exIcac) = .error .noNodeId := by rfl
 example : caseAccept exT exFabric { exNoc with subject := [.nodeId 5, .fabricId 8] } (some exIcac)
     = .error .invalid := by rfl
